@@ -3,7 +3,36 @@ from ..c18 import AnyObjPart, WrapInsertPart, TokenAdapterPart, DirectPart
 from ..runner import run_check
 
 
+def replay_case(path):
+    """re-run ONE recorded case (replays/C18_*.json) on the real code and on the model; exit 1 if it still fails"""
+    import json, os
+    from .. import vlib, evt
+    from ..c18 import HERE, evt_exe, run_lines
+    rec = json.load(open(path))
+    stream, case = rec.get("stream"), rec.get("case")
+    if not case:
+        print("replay: record has no case (proof-gate or build failure): " + rec.get("what", "")[:300]); return 1
+    drv = vlib.Driver()
+    try:
+        if stream == "anyobj":
+            exe = vlib.build_plain(os.path.join(HERE, "anyobj.cpp"), [], (), None, sanitize="address,undefined", name="anyobj")
+            out, crashes = run_lines(exe, [case], "case ")
+            model = drv.ask("ask anyobj run | " + case)
+        else:
+            exe = evt_exe("evt_tok", "evt_tok.cpp") if stream == "tokadapter" else evt_exe()
+            out, crashes = run_lines(exe, [case], "case ")
+            model = drv.ask("ask calc run | " + (rec.get("original") or case))
+    finally:
+        drv.close()
+    print("case :", case); print("impl :", out[0] if not crashes else "ABORT " + crashes[0][1]); print("model:", model)
+    bad = bool(crashes) or out[0] != model or "!!adapter" in (out[0] or "") or "!!token" in (out[0] or "") or "!!leak" in (out[0] or "")
+    print("VIOLATION property=C18 replay=" + path if bad else "replay: no longer failing")
+    return 1 if bad else 0
+
+
 def run(tier, seed, replay=None):
+    if replay:
+        return replay_case(replay)
     parts = [AnyObjPart(), WrapInsertPart(), TokenAdapterPart(), DirectPart()]
     return run_check(
         "C18", tier, seed, ["UnifexModel.Props.C18"], parts,
